@@ -41,7 +41,7 @@ theorem chan_delete_callback_is_delete_by_name :
 /-- `--sync-every` reaches `diskqueue.New` as given (`Tie.Restart.diskqueue_record_bounds` pins the argument
 lists): either `nsqd.New` does not look at it — then `0` is a legal configuration in which a deleted
 topic/channel leaves its `.diskqueue.meta.dat` (replay `sync_every_zero_delete`, E9's `CfgOk.sync` violated) —
-or it refuses values below 1 (fixes/F24) and `CfgOk.sync` holds for every queue nsqd opens -/
+or it refuses values below 1 (fixes/F25) and `CfgOk.sync` holds for every queue nsqd opens -/
 theorem sync_every_validation_shape :
     Nsq.Gen.Life.syncEveryGuard = [] ∨ Nsq.Gen.Life.syncEveryGuard = ["if opts.SyncEvery < 1"] := by decide
 
